@@ -47,6 +47,10 @@ def make_events(n, seed=0, special=True, feats=None):
     ev["frame"] = np.cumsum(rs.randint(1, 5, n)).astype(np.int64) + 2**33
     ev["fl1_max"] = rs.randint(0, 2**20, n).astype(np.int64)
     ev["index_online"] = np.cumsum(rs.randint(1, 3, n)).astype(np.int64)
+    if special and n >= 4:
+        # integers that a detour through float64 would round
+        ev["index_online"][0] = 2 ** 53 + 1
+        ev["index_online"][2] = 2 ** 60 + 1
     ev["index"] = np.arange(1, n + 1)
     ev["image"] = rs.randint(0, 256, (n,) + IMG_SHAPE).astype(np.uint8)
     ev["image_bg"] = rs.randint(0, 256, (n,) + IMG_SHAPE).astype(np.uint8)
